@@ -153,6 +153,16 @@ def join_wf(rng):
         edges = [{"u": 1, "v": 3, "vol": rng.randint(0, 1)}, {"u": 1, "v": 4, "vol": rng.randint(0, 1)},
                  {"u": 3, "v": 5, "vol": v1}, {"u": 4, "v": 5, "vol": v2}]
         return {"nodes": nodes, "edges": edges, "steered": True}
+    if rng.random() < 0.2:
+        # a heavy shortcut edge next to a light two-step path: the input that
+        # arrives last comes from the grandparent, not from the parent
+        nodes = [{"k": 1, "comp": rng.randint(1, 2), "data": 0}, {"k": 2, "comp": 1, "data": 0},
+                 {"k": 3, "comp": rng.randint(2, 5), "data": 0}, {"k": 4, "comp": rng.randint(1, 3), "data": 0}]
+        edges = [{"u": 1, "v": 2, "vol": rng.randint(0, 1)}, {"u": 2, "v": 4, "vol": 0},
+                 {"u": 1, "v": 4, "vol": rng.randint(6, 8)}]
+        if rng.random() < 0.5:
+            edges.append({"u": 3, "v": 4, "vol": rng.randint(0, 2)})
+        return {"nodes": nodes, "edges": edges}
     n = rng.randint(4, 7) if rng.random() < 0.75 else rng.randint(11, 13)
     nodes = [{"k": k, "comp": rng.choice([1, 2, 3, 4, 6, 8]), "data": rng.choice([0, 0, 0, 2, 5])}
              for k in range(1, n + 1)]
